@@ -37,7 +37,8 @@ static void gen(Plan* p, Rng* r, int tier, long idx) {
     int n = (int)rng_range(r, 4, tier ? 60 : 30), i; (void)idx;
     for (i = 0; i < n; i++) {
         int x = (int)rng_below(r, 100);
-        if (x < 58) plan_add(p, "set", 4, (int64_t)rng_below(r, 3), (int64_t)rng_below(r, 64), (int64_t)rng_below(r, 11), (int64_t)(rng_u64(r) >> 33));   /* target(0 cctx,1 params,2 dctx), param idx, value code, random */
+        if (x >= 54 && x < 58) plan_add(p, "bulk", 4, (int64_t)rng_below(r, 3), (int64_t)rng_below(r, 16), (int64_t)(rng_u64(r) >> 33), (int64_t)rng_below(r, 8));   /* which (0 setCParams, 1 setFParams, 2 setParams), 0-7 all fields valid / 8-15 one cParams field out of range, value seed, frame-parameter bits */
+        else if (x < 58) plan_add(p, "set", 4, (int64_t)rng_below(r, 3), (int64_t)rng_below(r, 64), (int64_t)rng_below(r, 11), (int64_t)(rng_u64(r) >> 33));   /* target(0 cctx,1 params,2 dctx), param idx, value code, random */
         else if (x < 70) plan_add(p, "reset", 2, (int64_t)rng_below(r, 3), (int64_t)rng_range(r, 1, 3));
         else if (x < 74) plan_add(p, "pledge", 1, (int64_t)rng_below(r, 5));   /* announce the size of the next frame: exact, +1, half, 0, unknown */
         else if (x < 78) plan_add(p, "frame2", 0);                             /* a frame streamed in two calls: the only place where a pledge in force is observable */
@@ -100,6 +101,27 @@ static void exec(const Plan* p) {
                        if (k_c[pi].plain && v >= b.lowerBound && v <= b.upperBound && got != v) sim_violation("readback_mismatch", "%s accepted but get returns %d", what, got);
                        if (k_c[pi].boolean && got != (v != 0)) sim_violation("readback_mismatch", "%s accepted but get returns %d (flag documented as value != 0)", what, got); }
             }
+            inv_bounds(&after, what);
+        } else if (!strcmp(o->kind, "bulk")) {
+            /* the structure setters: all-or-nothing ("On failure, no parameters are updated"), in-range structures accepted between frames, accepted values read back */
+            static const int fld[7] = { 1, 3, 2, 4, 5, 6, 7 };   /* k_c rows of windowLog, chainLog, hashLog, searchLog, minMatch, targetLength, strategy: the member order of ZSTD_compressionParameters */
+            int const which = (int)o->a[0] % 3, bad = (int)o->a[1] >= 8 && which != 1 ? (int)(o->a[1] - 8) % 7 : -1; unsigned v[7]; int k, valid = 1; size_t r; uint64_t h = (uint64_t)o->a[2] * 0x9E3779B97F4A7C15ull + 1;
+            ZSTD_compressionParameters cpar; ZSTD_frameParameters fpar; ZSTD_parameters par;
+            for (k = 0; k < 7; k++) { ZSTD_bounds b = ZSTD_cParam_getBounds((ZSTD_cParameter)k_c[fld[k]].id); h ^= h >> 29; h *= 0xBF58476D1CE4E5B9ull; h ^= h >> 32;
+                v[k] = (unsigned)(b.lowerBound + (int)(h % (uint64_t)(b.upperBound - b.lowerBound + 1)));
+                if (k == bad) { v[k] = (h >> 40) & 1 ? (unsigned)(b.upperBound + 1) : (unsigned)(b.lowerBound - 1); valid = 0; } }
+            cpar.windowLog = v[0]; cpar.chainLog = v[1]; cpar.hashLog = v[2]; cpar.searchLog = v[3]; cpar.minMatch = v[4]; cpar.targetLength = v[5]; cpar.strategy = (ZSTD_strategy)v[6];
+            fpar.contentSizeFlag = (int)(o->a[3] & 1) * (1 + (int)(o->a[2] & 2)); fpar.checksumFlag = (int)((o->a[3] >> 1) & 1); fpar.noDictIDFlag = (int)((o->a[3] >> 2) & 1);
+            par.cParams = cpar; par.fParams = fpar;
+            snprintf(what, sizeof what, "%s(%s%s)%s", which == 0 ? "ZSTD_CCtx_setCParams" : which == 1 ? "ZSTD_CCtx_setFParams" : "ZSTD_CCtx_setParams", valid ? "all fields in range" : "out-of-range ", valid ? "" : k_c[fld[bad]].name, cmid ? " mid-frame" : "");
+            r = which == 0 ? ZSTD_CCtx_setCParams(c, cpar) : which == 1 ? ZSTD_CCtx_setFParams(c, fpar) : ZSTD_CCtx_setParams(c, par);
+            snap(c, cp, d, &after);
+            if (ZSTD_isError(r)) { inv_unchanged(&before, &after, what); sim_probe(valid ? "c16.bulk_refused_midframe" : "c16.bulk_refused_invalid");
+                if (valid && !cmid) sim_violation("in_bounds_rejected", "%s is rejected between frames: %s", what, ZSTD_getErrorName(r)); }
+            else { if (!valid) sim_violation("out_of_bounds_accepted", "%s accepted (value %u)", what, v[bad]);
+                if (!cmid) { sim_probe("c16.bulk_accepted");
+                    if (which != 1) for (k = 0; k < 7; k++) if (after.c[fld[k]] != (int)v[k]) sim_violation("readback_mismatch", "%s accepted but %s reads %d, not %u", what, k_c[fld[k]].name, after.c[fld[k]], v[k]);
+                    if (which != 0 && (after.c[14] != (fpar.contentSizeFlag != 0) || after.c[15] != (fpar.checksumFlag != 0) || after.c[16] != (fpar.noDictIDFlag == 0))) sim_violation("readback_mismatch", "%s accepted but the frame flags read %d/%d/%d for {%d,%d,%d}", what, after.c[14], after.c[15], after.c[16], fpar.contentSizeFlag, fpar.checksumFlag, fpar.noDictIDFlag); } }
             inv_bounds(&after, what);
         } else if (!strcmp(o->kind, "reset")) {
             int tgt = (int)o->a[0] % 3, kind = (int)o->a[1]; size_t r = 0; if (kind < 1 || kind > 3) kind = 1;
